@@ -1,7 +1,7 @@
 (** Property C07: invalid policies are rejected, never mis-compiled; valid ones are accepted. *)
 From Coq Require Import String List NArith Bool.
-From Seccomp Require Import Words Result Machine Assembler Policy Spec Tables Text TextProofs CompileProofs RejectProofs PolicyTop.
-From Gen Require Import GenTables GenArches.
+From Seccomp Require Import Words Result Machine Assembler Policy Spec Tables Text TextProofs CompileProofs RejectProofs PolicyTop ValidationTemplates.
+From Gen Require Import GenTables GenArches GenCodegen.
 Import ListNotations.
 Open Scope N_scope.
 
@@ -75,6 +75,20 @@ Proof.
   - specialize (H2 _ Hin). apply existsb_exists in H2. destruct H2 as [x [Hx E]]. apply String.eqb_eq in E. subst. exact Hx.
 Qed.
 Print Assumptions C07_records_with_tables.
+
+(** ** The tie to the source at the level of the validation code itself.
+    [names_loop_template] and [nwc_loop_template] (gen/GenCodegen.v) are the bodies of the two loops of
+    SyscallGroup.toSyscallsWithConditions REGENERATED from filter.go on every run as decision templates (found? / entry
+    with that number? / conditions valid? / entry unconditional? -> append, add an alternative, record a problem,
+    continue). Their meaning is exactly the model's [to_syscalls], for every architecture record and group - so
+    C07_reject_iff speaks about the validation code that is in the source now. *)
+Theorem C07_source_validation_is_the_model : forall ai g,
+  to_syscalls_by_template ai names_loop_template nwc_loop_template g = Some (to_syscalls ai g).
+Proof.
+  intros ai g. change names_loop_template with expected_names_template. change nwc_loop_template with expected_nwc_template.
+  apply expected_templates_are_to_syscalls.
+Qed.
+Print Assumptions C07_source_validation_is_the_model.
 
 (** non-vacuity: one rejected policy per defect kind with the expected class, and an accepted one *)
 Theorem C07_nonvacuous :
